@@ -16,7 +16,7 @@ static struct {
 	int running, invocations, max_overlap_seen;
 	int handler_merges_left;
 	int done;
-	int body;
+	int body, late_activate;
 } D;
 static const char *const tnames[] = { "DATA_ADD", "DATA_OR", "DATA_REPLACE" };
 
@@ -90,6 +90,7 @@ static void c15_run(void) {
 	memset(&D, 0, sizeof D);
 	D.type = (int)g_n(3); D.tqkind = (int)g_n(4); D.nth = g_range(2, 5); D.body = (int)g_n(3);
 	D.handler_merges_left = g_chance(1, 3) ? g_range(1, 3) : 0;
+	D.late_activate = g_chance(1, 4);   // the mergers start before the source is activated: nothing may be delivered early, nothing lost
 	int idx = 0;
 	for (int t = 0; t < D.nth; t++) {
 		D.nops[t] = g_range(2, 7);
@@ -101,8 +102,8 @@ static void c15_run(void) {
 			op->burst = g_range(1, 4);
 		}
 	}
-	h_sample("%s source on %s queue, handler body %d, handler merges %d\n", tnames[D.type],
-		D.tqkind == 0 ? "a serial" : D.tqkind == 1 ? "a concurrent" : D.tqkind == 2 ? "a global" : "a serial->concurrent", D.body, D.handler_merges_left);
+	h_sample("%s source on %s queue, handler body %d, handler merges %d%s\n", tnames[D.type],
+		D.tqkind == 0 ? "a serial" : D.tqkind == 1 ? "a concurrent" : D.tqkind == 2 ? "a global" : "a serial->concurrent", D.body, D.handler_merges_left, D.late_activate ? ", activated while the merges are under way" : "");
 	for (int t = 0; t < D.nth; t++) {
 		h_sample("thread %d:", t);
 		for (int i = 0; i < D.nops[t]; i++) if (op_on(D.ops[t][i].idx)) {
@@ -124,10 +125,16 @@ static void c15_run(void) {
 	if (!D.ds) h_viol("create", "dispatch_source_create failed");
 	sim_watch(D.ds, 160);
 	dispatch_source_set_event_handler_f(D.ds, handler);
-	dispatch_activate(D.ds);
+	if (!D.late_activate) dispatch_activate(D.ds);
 	int hm = D.handler_merges_left;
 	sim_thread *th[MAXTH];
 	for (int t = 0; t < D.nth; t++) th[t] = sim_spawn(merger, (void *)(intptr_t)t, "merger");
+	if (D.late_activate) {
+		sim_sleep_ns((uint64_t)(RC.seed >> 13 & 127) * USEC);
+		if (D.invocations) h_viol("inactive-delivery", "the handler of a source that had not been activated yet was invoked");
+		h_log("activate source");
+		dispatch_activate(D.ds);
+	}
 	h_end_fault_phase(th, D.nth, 10 * NSEC);
 	if (h_wait_until(data_done, NULL, LIVENESS_NS)) {
 		char b[256];
